@@ -110,6 +110,17 @@ pub fn u_term(f: &F, min_components: usize, thorough: bool) -> Vec<LTerm> {
     items.push(atom("", "b1"));
     items.push(atom(f.e.atom.prefix_operator, "a"));
     apply_all(f, &items, 1, if thorough { 3 } else { 2 }, &mut out);
+    // wide: 9 and 17 components
+    for n in [9usize, 17] {
+        let elems: Vec<LTerm> = (0..n).map(|i| atom(if i % 4 == 3 { f.e.atom.prefix_variable_query } else { "" }, &format!("w{i}"))).collect();
+        for c in f.connecters() {
+            out.push(LTerm::Compound { connecter: c.to_string(), terms: elems.clone() });
+        }
+        let cb = &f.e.compound;
+        for (l, r) in [cb.brackets_set_extension, cb.brackets_set_intension] {
+            out.push(LTerm::Set { left_bracket: l.to_string(), terms: elems.clone(), right_bracket: r.to_string() });
+        }
+    }
     out
 }
 
@@ -139,12 +150,12 @@ pub fn stamps(f: &F) -> Vec<String> {
 
 pub fn truths() -> Vec<Vec<String>> {
     let s = |xs: &[&str]| xs.iter().map(|x| x.to_string()).collect::<Vec<_>>();
-    vec![s(&[]), s(&["1"]), s(&["0.5", "0.9"]), s(&[".5", "1.0", "007"])]
+    vec![s(&[]), s(&["1"]), s(&["0.5", "0.9"]), s(&[".5", "1.0", "007"]), s(&["1", "2", "3", "4", "5", "6", "7", "8", "9"])]
 }
 
 pub fn budgets() -> Vec<Option<Vec<String>>> {
     let s = |xs: &[&str]| Some(xs.iter().map(|x| x.to_string()).collect::<Vec<_>>());
-    vec![None, s(&[]), s(&["0.5"]), s(&["0.5", ".75", "0.4"]), s(&["1", "1", "1", "0.25"])]
+    vec![None, s(&[]), s(&["0.5"]), s(&["0.5", ".75", "0.4"]), s(&["1", "1", "1", "0.25"]), s(&["0", "1", "0", "1", "0", "1", "0", "1", "0.5"])]
 }
 
 pub fn tops(f: &F) -> Vec<LTerm> {
